@@ -951,6 +951,43 @@ impl MemoryImage {
         &self.external
     }
 
+    /// External memory with every data-backed overlay (RAM expansions, memory card, ROM overlays)
+    /// superimposed: the flattened image snapshots store, as `export_flat_memory` does in Python.
+    pub fn export_flat_external(&self) -> Vec<u8> {
+        let mut blob = self.external.clone();
+        // Lookups take the first matching overlay; apply in reverse so that one ends up on top.
+        for overlay in self.overlays.iter().rev() {
+            let Some(data) = overlay.data.as_ref() else {
+                continue;
+            };
+            let start = overlay.start as usize;
+            if start >= blob.len() {
+                continue;
+            }
+            let span = data.len().min(blob.len() - start);
+            blob[start..start + span].copy_from_slice(&data[..span]);
+        }
+        blob
+    }
+
+    /// Refill writable data-backed overlays from a flattened image (snapshot restore).
+    pub fn import_overlay_data_from_flat(&mut self, flat: &[u8]) {
+        for overlay in self.overlays.iter_mut() {
+            if overlay.read_only {
+                continue;
+            }
+            let start = overlay.start as usize;
+            let Some(data) = overlay.data.as_mut() else {
+                continue;
+            };
+            if start >= flat.len() {
+                continue;
+            }
+            let span = data.len().min(flat.len() - start);
+            data[..span].copy_from_slice(&flat[start..start + span]);
+        }
+    }
+
     pub fn internal_slice(&self) -> &[u8] {
         &self.internal
     }
